@@ -69,6 +69,7 @@ def Op.witness (s : St) : Op → Option Bool
   | .setRegPrice _ caller => some (witCommittee s.env s.cur caller s.env.neoC)
   | .blockAcc _ caller => some (witCommittee s.env s.cur caller s.env.policyC)
   | .unblockAcc _ caller => some (witCommittee s.env s.cur caller s.env.policyC)
+  | .designate _ caller => some (witCommittee s.env s.cur caller s.env.desigC)
   | _ => none
 
 /-- `unwitnessed_call_no_effect`: a native call whose witness check fails leaves the ledger as it was (it returns
@@ -159,6 +160,15 @@ theorem unwitnessed_no_effect (s : St) (op : Op) (h : op.witness s = some false)
     split
     · exact Or.inl rfl
     · rw [h]; exact Or.inr rfl
+  | designate nodes caller =>
+    simp only [Op.witness, Option.some.injEq] at h
+    simp only [exec]
+    split
+    · exact Or.inl rfl
+    · rw [h]
+      have : designateNotary s.env s.cur nodes false = none := by
+        unfold designateNotary; split <;> (try split) <;> rfl
+      rw [this]; exact Or.inr rfl
   | block _ => simp [Op.witness] at h
   | onPersist _ _ _ => simp [Op.witness] at h
   | txBegin _ _ => simp [Op.witness] at h
